@@ -98,3 +98,10 @@ package verifspec
 //@   param a: iface, b: iface
 //@   abstract_rest
 //@   throws_when !a.$nil && !b.$nil && a.constructor == b.constructor && !isglobal(a.constructor, "$jsObjectPtr") && !a.constructor.comparable
+
+// $clone(src, T): the copy the translator inserts wherever a struct or array value is transferred (rule V-FRESH, and the
+// repairs F15, F20-F22): a new object of the type, filled by the type's own copy from src.
+//@ js prelude.js $clone
+//@ property C07
+//@   param src: rec, type: desc
+//@   ensures ref(result) != ref(src) && copiedFrom(ref(result)) == ref(src) && copiedBy(ref(result)) == type
